@@ -71,6 +71,7 @@ def tasks(tier, seed):
         ts.append({"part": "addrs", "k": k, "name": "addrs/%d" % k})
     ts.append({"part": "history", "name": "history"})
     ts.append({"part": "hostforms", "name": "hostforms"})
+    ts.append({"part": "portforms", "name": "portforms"})
     ts.append({"part": "scoped", "name": "scoped"})
     ts.append({"part": "redirect-scheme", "name": "redirect-scheme"})
     return ts
@@ -460,6 +461,19 @@ def run_task(desc):
                 n += 1
                 rec(guarded(url_case, u), {"case": "url", "url": u})
         res["samples"].append({"host_forms": hosts[:4] + hosts[-4:], "count": len(hosts)})
+    elif desc["part"] == "portforms":
+        # the port field in every spelling of the shared numeric-field alphabet (the URL grammar decides: digits only)
+        for code in (80, 443, 8080, 65535):
+            for sp, cls in HS.numeric_spellings(code):
+                try:
+                    ptxt = sp.decode("utf-8")
+                except UnicodeDecodeError:
+                    continue
+                for sc, h, tail in itertools.product(("ws", "wss"), ("example.com", "[::1]", "10.0.0.1"), ("", "/p?q=1")):
+                    u = "%s://%s:%s%s" % (sc, h, ptxt, tail)
+                    n += 1
+                    rec(guarded(url_case, u), {"case": "url", "url": u})
+        res["samples"].append({"port_spellings": n})
     elif desc["part"] == "ports":
         for p in range(desc["lo"], desc["hi"], desc["step"]):
             for u in ("ws://example.com:%d/x?y=1" % p, "wss://[::1]:%d" % p):
